@@ -13,6 +13,7 @@ import (
 	"encoding/json"
 	"fmt"
 	"math/rand"
+	"net/url"
 	"os"
 	"os/exec"
 	"path"
@@ -24,6 +25,8 @@ import (
 	"time"
 
 	"github.com/martian-lang/martian/martian/core"
+	"github.com/martian-lang/martian/martian/syntax"
+	"github.com/martian-lang/martian/martian/util"
 )
 
 type c13TASpec struct {
@@ -38,6 +41,8 @@ type c13TASpec struct {
 	//            child re-attaches to the pipestance directory (mrp restart) and post-processes again.
 	Fault    string `json:"fault,omitempty"`
 	FaultArg int    `json:"fault_arg,omitempty"`
+	// Mapped == "map": the fork keys of the split literal (nil = the default two keys)
+	Keys []string `json:"keys,omitempty"`
 }
 
 type c13TARes struct {
@@ -65,6 +70,12 @@ type c13TARes struct {
 	FaultFails  []string `json:"fault_fails,omitempty"`  // violated assertions on the state right after the fault
 	FaultPoint  string   `json:"fault_point,omitempty"`  // kill: what existed when the child died; crashsim: the simulated point
 	Before0     c13Tree  `json:"before0,omitempty"`      // crashsim: the tree before the simulated partial post-process
+	// mapped over a typed map: the order in which Fork.postProcess visited the fork keys (console log),
+	// and whether it reported "Could not move output files"
+	FaultTmp string `json:"fault_tmp,omitempty"` // state of _outs.tmp right after the fault: N | S<hex> | L<len>
+	FaultRaw string `json:"fault_raw,omitempty"` // raw _outs right after the fault: S<hex> (when small)
+	Order   []string `json:"order,omitempty"`
+	PostErr string   `json:"post_err,omitempty"`
 }
 
 func init() { register("C13W", c13Worker) }
@@ -118,7 +129,76 @@ func c13RunOne(c *Ctx, spec *c13TASpec, prepostFile string) *c13TARes {
 	var run *TARun
 	ext := ""
 	hooked := map[string]string{}
-	if spec.Hook != "" {
+	if spec.Hook == "keys" || spec.Hook == "badkeys" {
+		// the stage returns its typed maps under other RUN-TIME KEYS: adversarial relative to the
+		// naming scheme ("keys"), and with one key that is not a legal file name in one map of
+		// directory kind ("badkeys": output verification must refuse it, the stage fails)
+		usedBad := false
+		var rekey func(ty *c13Ty, v interface{}, where string) interface{}
+		rekey = func(ty *c13Ty, v interface{}, where string) interface{} {
+			switch ty.Kind {
+			case "a":
+				if xs, ok := v.([]interface{}); ok {
+					et := ty.Elem
+					if ty.Extra > 0 {
+						et = &c13Ty{Kind: "a", Elem: ty.Elem, Extra: ty.Extra - 1}
+					}
+					for i := range xs {
+						xs[i] = rekey(et, xs[i], where)
+					}
+				}
+			case "t":
+				if m, ok := v.(map[string]interface{}); ok {
+					for _, mm := range ty.Ms {
+						if x, ok := m[mm.Id]; ok {
+							m[mm.Id] = rekey(mm.Ty, x, where+"."+mm.Id)
+						}
+					}
+				}
+			case "m":
+				if m, ok := v.(map[string]interface{}); ok && len(m) > 0 {
+					old := make([]string, 0, len(m))
+					for k := range m {
+						old = append(old, k)
+					}
+					sort.Strings(old)
+					bad := spec.Hook == "badkeys" && !usedBad && ty.hasFile()
+					keys, _ := c13MapKeyNames(rng, ty.Elem, len(m), bad)
+					if bad {
+						usedBad = true
+						hooked[where] = "illegal-key"
+					} else {
+						hooked[where] = "rekeyed"
+					}
+					nm := map[string]interface{}{}
+					for i, k := range keys {
+						if i < len(old) {
+							nm[k] = rekey(ty.Elem, m[old[i]], where)
+						} else if len(old) > 0 {
+							// the extra (illegal) key: a structurally valid entry with nothing to move
+							nm[k] = nil
+						}
+					}
+					return nm
+				}
+			}
+			return v
+		}
+		opts.OutsHook = func(job *TAJob, outs map[string]interface{}) {
+			if job.ShellName == "split" || run == nil || run.Ast == nil {
+				return
+			}
+			st, _ := run.Ast.Callables.Table[job.StageName].(*syntax.Stage)
+			if st == nil {
+				return
+			}
+			for _, p := range c13ParamsFromSyntax(&run.Ast.TypeTable, st.OutParams) {
+				if v, ok := outs[p.Id]; ok {
+					outs[p.Id] = rekey(p.Ty, v, p.Id)
+				}
+			}
+		}
+	} else if spec.Hook != "" {
 		opts.OutsHook = func(job *TAJob, outs map[string]interface{}) {
 			if job.ShellName == "split" {
 				return
@@ -243,6 +323,7 @@ func c13RunOne(c *Ctx, spec *c13TASpec, prepostFile string) *c13TARes {
 	var preJ *c13J
 	topOuts := path.Join(run.PsDir, run.Ast.Call.Id, "fork0", "_outs")
 	done := make(chan struct{})
+	lg := &c13CapLog{}
 	go func() {
 		defer close(done)
 		var restore func()
@@ -255,6 +336,9 @@ func c13RunOne(c *Ctx, spec *c13TASpec, prepostFile string) *c13TARes {
 			if j, err := c13ParseJSON(b); err == nil {
 				preJ = j
 				c13RecordLeaves(spec.Mapped, j, res.Params, mon)
+			}
+			if spec.Mapped == "map" && os.Getenv("TA_LOG") == "" {
+				util.SetPrintLogger(lg)
 			}
 			switch spec.Fault {
 			case "crashsim":
@@ -293,6 +377,15 @@ func c13RunOne(c *Ctx, spec *c13TASpec, prepostFile string) *c13TARes {
 			}
 		}, func() {
 			// PostProcess has returned; the pipestance is still locked
+			if spec.Mapped == "map" && os.Getenv("TA_LOG") == "" {
+				util.SetPrintLogger(devNullLogger{})
+				if preJ != nil && preJ.K == 'O' {
+					res.Order, _ = c13ForkOrder(lg.sb.String(), preJ.Keys)
+				}
+				if i := strings.Index(lg.sb.String(), "Could not move output files:"); i >= 0 {
+					res.PostErr = c13Short(lg.sb.String()[i:])
+				}
+			}
 			switch spec.Fault {
 			case "fsize":
 				restore()
@@ -377,6 +470,9 @@ func c13Finish(res *c13TARes, spec *c13TASpec, mon *c13Mon, preJ *c13J, cs *c13C
 		return
 	}
 	c13WalkRecords(spec.Mapped, res.Params, mon, preJ, postJ, psDir)
+	if spec.Mapped == "map" {
+		c13MappedOwnLocation(res.Params, mon, preJ, postJ, psDir)
+	}
 	res.Fails = mon.fails
 	res.Alias = mon.alias
 	res.Leafs = mon.leafs
@@ -635,6 +731,72 @@ func c13TierA(c *Ctx, r *Result) {
 				spec.Name += fmt.Sprintf("-kill%d", spec.FaultArg)
 			}
 		}
+		if spec.Mapped == "map" && spec.Fault == "" && !strings.HasSuffix(spec.Name, "-gen") {
+			// adversarial fork keys through the whole runtime
+			spec.Keys, _ = c13GenKeySet(rng, c13OutNamesOfSrc(spec.Src), true)
+			spec.Src = c13ReplaceKeys(spec.Src, spec.Keys)
+			spec.Name += "-keys"
+		}
+		specs = append(specs, spec)
+	}
+	// top-level calls mapped over a typed map with adversarial fork keys, through the whole runtime
+	nkeys := 36
+	if c.Thorough {
+		nkeys = 400
+	}
+	for i := 0; i < nkeys; i++ {
+		rng := rand.New(rand.NewSource(c.Rng.Int63()))
+		spec := &c13TASpec{Name: fmt.Sprintf("ta-mapkeys-%d", i), Seed: rng.Int63(), Mapped: "map"}
+		sig := c13GenSmallSig(rng, 9)
+		spec.Src = sig.mroDup("map", i%4 == 2, false)
+		if i%5 == 3 {
+			spec.Hook = "mix"
+		}
+		spec.Keys, _ = c13GenKeySet(rng, c13OutNamesOfSrc(spec.Src), true)
+		spec.Src = c13ReplaceKeys(spec.Src, spec.Keys)
+		specs = append(specs, spec)
+	}
+	// stage outputs with typed maps under adversarial run-time keys ("keys"), and with a key that
+	// is not a legal file name among legal ones ("badkeys")
+	nnames := 30
+	if c.Thorough {
+		nnames = 400
+	}
+	for i := 0; i < nnames; i++ {
+		rng := rand.New(rand.NewSource(c.Rng.Int63()))
+		spec := &c13TASpec{Name: fmt.Sprintf("ta-keynames-%d", i), Seed: rng.Int63(), Hook: "keys"}
+		if i%2 == 1 {
+			spec.Hook = "badkeys"
+			spec.Name += "-bad"
+		}
+		var sig *c13Sig
+		for tries := 0; tries < 200; tries++ {
+			sig = c13GenSig(rng, false)
+			if sig.hasDirMap() && sig.maxLeaves() <= 40 {
+				break
+			}
+		}
+		spec.Src = sig.mroDup("", i%4 >= 2, false)
+		specs = append(specs, spec)
+	}
+	// the outputs of a `map call` over a map collected into ONE typed map of structs that is the
+	// top-level output: the fork keys become the keys of a map of directory kind
+	ncollect := 16
+	if c.Thorough {
+		ncollect = 200
+	}
+	for i := 0; i < ncollect; i++ {
+		rng := rand.New(rand.NewSource(c.Rng.Int63()))
+		spec := &c13TASpec{Name: fmt.Sprintf("ta-collect-%d", i), Seed: rng.Int63()}
+		sig := c13GenSmallSig(rng, 9)
+		var names []string
+		for _, p := range sig.Params {
+			if p.Ty.hasFile() {
+				names = append(names, p.expectName())
+			}
+		}
+		keys, _ := c13GenKeySet(rng, names, true)
+		spec.Src = sig.mroCollect(keys)
 		specs = append(specs, spec)
 	}
 	// deterministic sweeps: every simulated crash point of a few programs, and the kill stream at
@@ -717,8 +879,25 @@ func c13CompareAll(c *Ctx, r *Result, specs []*c13TASpec, results []*c13TARes, c
 			}
 			continue
 		}
+		if spec.Hook == "badkeys" && res.Final == "failed" {
+			illegal := false
+			for _, v := range res.Hooked {
+				illegal = illegal || v == "illegal-key"
+			}
+			if illegal {
+				// the correct outcome: output verification refuses the value, the pipestance does not complete
+				r.hist("tierA:illegal-key:refused-by-verification")
+			}
+		}
 		if res.Final != "complete" {
 			continue
+		}
+		if spec.Hook == "badkeys" {
+			for _, v := range res.Hooked {
+				if v == "illegal-key" {
+					r.hist("tierA:illegal-key:pipestance-completed")
+				}
+			}
 		}
 		if spec.Mapped != "" {
 			r.hist("tierA:mapped:" + spec.Mapped)
@@ -739,6 +918,25 @@ func c13CompareAll(c *Ctx, r *Result, specs []*c13TASpec, results []*c13TARes, c
 		}
 		input := map[string]interface{}{"name": res.Name, "mro": spec.Src, "seed": spec.Seed, "mapped": spec.Mapped, "hook": spec.Hook,
 			"pre_outs": strip(res.PreOuts), "hooked": res.Hooked}
+		keyClass := ""
+		if spec.Mapped == "map" {
+			if pj, err := c13ParseJSON([]byte(res.PreOuts)); err == nil && pj.K == 'O' {
+				outsRoot := filepath.Join(res.PsDir, "outs")
+				dirs, class := c13KeyDirsGo(outsRoot, pj.Keys)
+				keyClass = class
+				r.hist("tierA:mapped:map:keys:" + class)
+				if spec.Keys != nil {
+					c13CheckKeyDirs(c, r, outsRoot, pj.Keys, dirs, class)
+				}
+				input["keys"] = pj.Keys
+				input["key_class"] = class
+				input["visited_in_order"] = res.Order
+				if res.PostErr != "" {
+					input["post_err"] = strip(res.PostErr)
+					r.hist("tierA:mapped:map:postprocess-reported-error:" + class)
+				}
+			}
+		}
 		r.count(spec.Src+"|"+strip(res.PreOuts), res.Leafs > 0)
 		if res.ParseErr != "" {
 			r.violate(Violation{Kind: "property", Key: "C13:invalid-json", What: "top-level _outs is not valid JSON after post-processing: " + res.ParseErr,
@@ -752,6 +950,15 @@ func c13CompareAll(c *Ctx, r *Result, specs []*c13TASpec, results []*c13TARes, c
 		}
 		if len(res.Fails) > 0 {
 			key := c13CrashKey(res, "C13:materialise")
+			if keyClass != "" && keyClass != "separable" && key == "C13:materialise" {
+				key = "C13:mapped-key-dirs-overlap"
+			}
+			if ks := c13UnverifiedForkKeys(spec.Mapped, res, pre); len(ks) > 0 && key == "C13:materialise" {
+				// a typed map of directory kind whose illegal key is a FORK key of a map call: such
+				// records are assembled by the runtime and never pass through IsValidJson
+				key = "C13:map-call-keys-unverified"
+				input["fork_keys_not_legal_file_names"] = ks
+			}
 			md := false
 			c13ForEachRecord(spec.Mapped, pre, func(_ string, rec *c13J) {
 				for _, p := range res.Params {
@@ -794,6 +1001,7 @@ func c13CompareAll(c *Ctx, r *Result, specs []*c13TASpec, results []*c13TARes, c
 			input["fault"] = spec.Fault
 			input["fault_arg"] = spec.FaultArg
 			input["fault_point"] = res.FaultPoint
+			c13FaultWriterTie(c, r, spec, res, input)
 			if len(res.FaultFails) > 0 {
 				key := "C13:fault-state"
 				ff := make([]string, len(res.FaultFails))
@@ -815,6 +1023,33 @@ func c13CompareAll(c *Ctx, r *Result, specs []*c13TASpec, results []*c13TARes, c
 			continue
 		}
 		// model comparison
+		if spec.Mapped == "map" && pre.K == 'O' {
+			// the model runs the forks in the order in which the real code visited them
+			if len(res.Order) == len(pre.Keys) {
+				ordered := &c13J{K: 'O'}
+				for _, k := range res.Order {
+					ordered.Keys = append(ordered.Keys, k)
+					ordered.Vals = append(ordered.Vals, pre.get(k))
+				}
+				pre = ordered
+			} else if keyClass != "separable" {
+				r.hist("tierA:mapped:map:visit-order-unreadable")
+				continue
+			}
+			if keyClass != "separable" {
+				outsRoot := filepath.Join(res.PsDir, "outs")
+				dirs, _ := c13KeyDirsGo(outsRoot, pre.Keys)
+				if c13ForkDirThroughSymlink(res.After, outsRoot, dirs) {
+					r.hist("tierA:mapped:map:model-skipped-symlinked-fork-dir")
+					continue
+				}
+			}
+			if keyClass != "separable" && res.PostErr != "" {
+				// mkdir failures below another fork's file / for unrepresentable names are not modelled
+				r.hist("tierA:mapped:map:model-skipped-syscall-error")
+				continue
+			}
+		}
 		mode := map[string]string{"": "o", "array": "a", "map": "m"}[spec.Mapped]
 		altMode := ""
 		switch {
@@ -835,6 +1070,10 @@ func c13CompareAll(c *Ctx, r *Result, specs []*c13TASpec, results []*c13TARes, c
 		parts := strings.Split(reply, "\t")
 		if len(parts) != 2 {
 			r.violate(Violation{Kind: "correspondence", Key: "C13:driver", What: "driver reply: " + c13Short(reply), Input: input, Broken: "driver"})
+			continue
+		}
+		if keyClass != "" && keyClass != "separable" && c13BelowSymlink(res.After, c13ParseTree(parts[1])) {
+			r.hist("tierA:mapped:map:model-skipped-symlinked-fork-dir")
 			continue
 		}
 		post, _ := c13ParseJSON([]byte(res.PostOuts))
@@ -908,4 +1147,98 @@ func c13CrashKey(res *c13TARes, deflt string) string {
 		}
 	}
 	return deflt
+}
+
+// c13FaultWriterTie: the (record, temp sibling) pair observed right after a faulted or killed
+// post-process against the model's writeCut: a NEW record means the rename happened (all steps:
+// no temp file); an OLD record with a temp file is the state after the open and |tmp| bytes
+// (under RLIMIT_FSIZE = L exactly L bytes).
+func c13FaultWriterTie(c *Ctx, r *Result, spec *c13TASpec, res *c13TARes, input map[string]interface{}) {
+	if res.FaultTmp == "" || res.FaultRecord == "" || (spec.Fault != "fsize" && spec.Fault != "kill") {
+		return
+	}
+	r.hist("tierA:fault:" + spec.Fault + ":record-" + res.FaultRecord + ":tmp-" + map[bool]string{true: "absent", false: "present"}[res.FaultTmp == "N"])
+	bad := func(what string, model interface{}) {
+		r.violate(Violation{Kind: "correspondence", Key: "C13:model-writer-fault", Broken: "record_path_old_or_new / writeCut vs the fault stream",
+			What: what, Input: input, Impl: map[string]string{"record": res.FaultRecord, "tmp": c13Short(res.FaultTmp)}, Model: model})
+	}
+	old := []byte("<the old record>")
+	switch {
+	case res.FaultRecord == "new":
+		if !strings.HasPrefix(res.FaultRaw, "S") {
+			return
+		}
+		nb := []byte(unhx(res.FaultRaw[1:]))
+		mrec, mtmp, ok := c13WriterCut(c, "a", old, true, nb, len(nb)+2)
+		if !ok || mrec != res.FaultRaw || mtmp != res.FaultTmp {
+			bad("a complete new record was observed together with a temp sibling: not a state of writeAtomicAt cut anywhere", map[string]string{"record": c13Short(mrec), "tmp": c13Short(mtmp)})
+		}
+	case strings.HasPrefix(res.FaultTmp, "S"):
+		tb := []byte(unhx(res.FaultTmp[1:]))
+		if spec.Fault == "fsize" && len(tb) != spec.FaultArg {
+			bad(fmt.Sprintf("under RLIMIT_FSIZE = %d the temp sibling holds %d bytes (the model: the open and exactly L bytes)", spec.FaultArg, len(tb)), nil)
+		}
+		mrec, mtmp, ok := c13WriterCut(c, "a", old, true, append(append([]byte{}, tb...), '}'), len(tb)+1)
+		if !ok || mrec != "S"+hx(string(old)) || mtmp != res.FaultTmp {
+			bad("old record + temp sibling is not the model's state after the open and |tmp| bytes", map[string]string{"record": c13Short(mrec), "tmp": c13Short(mtmp)})
+		}
+	}
+}
+
+// c13UnverifiedForkKeys: the keys of typed-map nodes of directory kind in the top-level record
+// that are not legal file names AND are fork keys of a mapped call of this pipestance (a
+// directory fork_<url-escaped key> exists): values collected from a `map call` over a map get
+// their keys from the call's input, not from a verified stage output.
+func c13UnverifiedForkKeys(mapped string, res *c13TARes, pre *c13J) []string {
+	forkDirs := map[string]bool{}
+	for p := range res.Before {
+		if b := filepath.Base(p); strings.HasPrefix(b, "fork_") {
+			forkDirs[b] = true
+		}
+	}
+	found := map[string]bool{}
+	var walk func(t *c13Ty, v *c13J)
+	walk = func(t *c13Ty, v *c13J) {
+		if v == nil || v.K == 'n' || !t.hasFile() {
+			return
+		}
+		switch t.Kind {
+		case "a":
+			if v.K == 'A' {
+				et := t.Elem
+				if t.Extra > 0 {
+					et = &c13Ty{Kind: "a", Elem: t.Elem, Extra: t.Extra - 1}
+				}
+				for _, x := range v.Arr {
+					walk(et, x)
+				}
+			}
+		case "m":
+			if v.K == 'O' {
+				for i, k := range v.Keys {
+					if !c13LegalKey(k) && forkDirs["fork_"+url.PathEscape(k)] {
+						found[k] = true
+					}
+					walk(t.Elem, v.Vals[i])
+				}
+			}
+		case "t":
+			if v.K == 'O' {
+				for _, m := range t.Ms {
+					walk(m.Ty, v.get(m.Id))
+				}
+			}
+		}
+	}
+	c13ForEachRecord(mapped, pre, func(_ string, rec *c13J) {
+		for _, p := range res.Params {
+			walk(p.Ty, rec.get(p.Id))
+		}
+	})
+	var ks []string
+	for k := range found {
+		ks = append(ks, k)
+	}
+	sort.Strings(ks)
+	return ks
 }
